@@ -4,6 +4,7 @@ import LinfaSpec.Proofs.Kernel
 import LinfaSpec.Proofs.KernelReal
 import LinfaSpec.Proofs.Sparse
 import LinfaSpec.Proofs.Hier
+import LinfaSpec.Proofs.SparseSum
 
 /-!
 # C06 — Kernel matrices hold the kernel function; hierarchical clustering partitions
@@ -169,6 +170,27 @@ theorem views_diagonal (n : Nat) (S : Csr α) : sDiag n S = dDiag (sToDense n S)
 
 /-- `to_upper_triangle()` goes through `to_dense()` -/
 theorem views_upper (n : Nat) (S : Csr α) : sUpper n S = dUpper (sToDense n S) := rfl
+
+/-- **`sum`**: the sparse kernel adds up *columns* (in CSR order), the dense one rows (`ndSum`); on the
+matrix a sparse kernel stands for the two agree because that matrix is symmetric -/
+theorem views_sum (m : Method α) (X : List (List α)) (k : Nat) (nb : List (List Nat)) (S : Csr α)
+    (h : sparseFromFn m X k nb = some S) : sSum X.length S = dSum (sToDense X.length S) := by
+  apply List.ext_getElem?
+  intro c
+  by_cases hc : c < X.length
+  · have h1 := sparse_sSum_getD m X k nb S h c hc
+    have hl : c < (sSum X.length S).length := by rw [sSum_length]; exact hc
+    rw [List.getD_eq_getElem?_getD, List.getElem?_eq_getElem hl, Option.getD_some] at h1
+    rw [List.getElem?_eq_getElem hl, h1]
+    unfold dSum sToDense
+    simp only [List.getElem?_map, List.getElem?_range hc, Option.map_some, ndSum_eq_sum]
+    congr 2
+    apply List.map_congr_left
+    intro j _
+    rw [sparse_symm m X k nb S h j c]
+  · have h1 : (sSum X.length S).length = X.length := sSum_length _ _
+    have h2 : (dSum (sToDense X.length S)).length = X.length := by simp [dSum, sToDense]
+    rw [List.getElem?_eq_none (by omega), List.getElem?_eq_none (by omega)]
 
 /-- entry `(i, j)` of the matrix a sparse kernel stands for: the kernel function on stored pairs, 0 elsewhere -/
 theorem sToDense_entry (m : Method α) (X : List (List α)) (k : Nat) (nb : List (List Nat)) (S : Csr α)
